@@ -71,6 +71,11 @@ def main():
     res = tlc("Spelling", cfg="MCSpelling3.cfg" if thorough else "MCSpelling.cfg", timeout=600)
     c.add_tlc(res)
     spellings = tlc_cases(res.out)
+    # the spelling that differs most from the canonical one (every syntax choice flipped at once) is part of every tier: some type
+    # shapes only change their parse tree when shorthand and `T?` are combined (`int?*` vs !vector {items: [null, int]})
+    allshort = {"shorthand": True, "prim_alias": True, "optional": "question", "comments": False, "blanks": False, "order": "asis", "files": 1, "generics": "none"}
+    if not any(x["spelling"] == allshort for x in spellings):
+        spellings.append({"spelling": allshort, "relation": "byte_identical_output"})
     canonical = [x for x in spellings if x["spelling"] == {"shorthand": False, "prim_alias": False, "optional": "union", "comments": False,
                                                             "blanks": False, "order": "asis", "files": 1, "generics": "none"}]
     if not canonical:
@@ -84,8 +89,22 @@ def main():
     named_fields = [x for x in types if (x[0]["k"] in ("rec", "vec", "opt", "alias") and ("enum(" in we.type_class(x[0]) or "flags(" in we.type_class(x[0]))
                                          and "rec(" in we.type_class(x[0])) or "rec(alias" in we.type_class(x[0])]
     named_fields.sort(key=lambda x: (x[0]["k"] != "alias", we.type_class(x[0])))
-    types = named_fields[:8] + [x for x in types if x not in named_fields[:8]]
-    npk = 24 if thorough else 8
+    # ... and the shapes whose shorthand and expanded spellings do not build literally the same tree: optionals / unions inside
+    # containers, containers inside unions (one of each distinct shape, before the random rest)
+    import re as _re
+    sens, seen_cls = [], set()
+    for x in types:
+        k = we.type_class(x[0])
+        if _re.search(r"(vec|fvec|map|farr|ndarr|dynarr)\((\w+,)?(opt|union)\(", k) or _re.search(r"union\([^()]*(vec|map|ndarr|dynarr|farr)\(", k):
+            shape = _re.sub(r"\b(u?int\d+|float\d+|string|bool|date|time|datetime|complexfloat\d+|size)\b", "p", k)
+            if shape not in seen_cls:
+                seen_cls.add(shape)
+                sens.append(x)
+    # unions whose cases are containers of optionals / unions first
+    sens.sort(key=lambda x: 0 if _re.search(r"union\(.*(vec|fvec|map|farr|ndarr|dynarr)\((\w+,)?(opt|union)\(", we.type_class(x[0])) else 1)
+    sens = sens[:(60 if thorough else 22)]
+    types = named_fields[:8] + sens + [x for x in types if x not in named_fields[:8] and x not in sens]
+    npk = 24 if thorough else 9
     bases = [types[i * 10:(i + 1) * 10] for i in range(npk)]
 
     jobs = [(bi, broken, x) for bi in range(len(bases)) for broken in (False, True) for x in spellings
